@@ -15,7 +15,7 @@ RULE = ("every hit (a,b) returned by a registry entry on a text T is compared, a
 ASSUMPTIONS = ["hits absent from the tree are only counted here (C05/C06 judge absences)",
                "hits whose decoder snapshot is out of range are skipped and counted (C03's business)"]
 EXPECTED_WALL = {"quick": 60, "thorough": 500}
-REQUIRED = {"c04_kept_hits": 50000, "c04_kept_depth>=2_positive_offsets": 200, "c04_decoded_inside_context": 200, "real_scans": 500}
+REQUIRED = {"c04_kept_hits": 6250, "c04_kept_depth>=2_positive_offsets": 25, "c04_decoded_inside_context": 25, "real_scans": 62}
 
 
 def plan(tier, seed):
